@@ -14,7 +14,8 @@
 
    Environment assumption (stated by the property itself: allocation hands out EVERY address
    of the range): statically configured addresses lie outside the DHCP range of their
-   network and are pairwise distinct; configurations violating it are marked "skip". *)
+   network and are pairwise distinct, and the subnets of different network configurations do
+   not overlap; configurations violating it are built but not operated on. *)
 EXTENDS Naturals, FiniteSets, Sequences, TLC
 
 CONSTANTS B,          \* address bits
@@ -100,7 +101,11 @@ Built == built = Len(VMs) /\ err = None
 \* the environment assumption, evaluated on the built network: no statically configured address lies in the DHCP
 \* range of ANY netconfig (subnets of different netconfigs may overlap)
 StaticOutsideRange == \A i \in Ifaces : \A n \in Dom(nets) : cfgIp[i] \notin (n + nets[n].lo)..(n + nets[n].hi)
-Admissible == Built /\ StaticOutsideRange
+\* ... and the subnets of different netconfigs do not overlap (overlapping subnets are a misconfiguration the code only
+\* partly detects; with them "the netconfig whose subnet contains the address" is not even unique)
+Span(n) == n..(n + Size(nets[n].pre) - 1)
+SubnetsDisjoint == \A n, m \in Dom(nets) : n # m => Span(n) \cap Span(m) = {}
+Admissible == Built /\ StaticOutsideRange /\ SubnetsDisjoint
 
 \* get_allocatable_address of netconfig n: next free offset, or exhaustion
 Allocate(n) == /\ Admissible /\ ops < MaxOps /\ n \in Dom(nets)
@@ -137,7 +142,7 @@ SimSpec == Init /\ [][Next \/ (~ENABLED Next /\ UNCHANGED vars)]_vars
 
 \* ---- properties (C18), required in every admissible state, also after a rejected operation
 Consistent ==
-  (built = Len(VMs) /\ StaticOutsideRange /\ (err = None \/ ops > 0)) =>
+  (built = Len(VMs) /\ StaticOutsideRange /\ SubnetsDisjoint /\ (err = None \/ ops > 0)) =>
     /\ \A i \in Ifaces :
          /\ ncOf[i] \in Dom(nets)
          \* registered in exactly one netconfig, the one it points to, under its own address
